@@ -764,6 +764,9 @@ class Check:
             except smt.EmitUnsupported as e:
                 ob.status = "rejected"
                 ob.detail = "emit: " + str(e)
+            except Exception as e:   # noqa  (an obligation builder that cannot cope with this tree's IR: undecided, not fatal)
+                ob.status = "rejected"
+                ob.detail = "obligation builder raised %s: %s" % (type(e).__name__, str(e)[:300])
 
         def solve_one(ob):
             routes = ob.routes or INT_ROUTES
